@@ -275,6 +275,172 @@ theorem enc_sopp (c : Bool) (d : Desc) (row : Row) (f : Format)
   simp only [hsz, hrow, hsec, hlit, dec4, hf, hft, FT_SOP2, FT_SOPK, FT_SOP1, FT_SOPC, FT_SOPP, FT_SMEM, FT_VOP2, FT_VOP1, FT_VOPC, FT_VOP3a, FT_VOP3b, FT_FLAT, FT_DS, decodeSOPP, xi, hro, extractBits_0_3, extractBits_8_12]
   by_cases h12 : d.op = 12 <;> simp [h12]
 
+
+theorem enc_vopc (c : Bool) (d : Desc) (row : Row) (f : Format)
+    (hft : d.ft = FT_VOPC) (hf : f.ft = FT_VOPC) (hsz : f.size = 4)
+    (hrow : lookUp d.ft d.op = some row) (hop : d.op < 256)
+    (hfo : fieldsOK d = true) (hl : d.lit.isSome = usesLit d) :
+    encWord d < 2 ^ 32 ∧ encWord d / 2 ^ 25 = 62 ∧ extractBits (encWord d) 17 24 = d.op ∧
+    ∀ w1?, (∀ l, encSecond d = some l → w1? = some l) →
+      decodeRow c f row (encWord d) w1? = .ok (instOf d) := by
+  have hW : encWord d = 0x7C000000 + d.op * 2 ^ 17 + d.vsrc1 * 2 ^ 9 + d.src0 := by
+    simp [encWord, hft, FT_SOP2, FT_SOPK, FT_SOP1, FT_SOPC, FT_SOPP, FT_SMEM, FT_VOP2, FT_VOP1, FT_VOPC, FT_VOP3a, FT_VOP3b, FT_FLAT, FT_DS]
+  simp [fieldsOK, hft, FT_SOP2, FT_SOPK, FT_SOP1, FT_SOPC, FT_SOPP, FT_SMEM, FT_VOP2, FT_VOP1, FT_VOPC, FT_VOP3a, FT_VOP3b, FT_FLAT, FT_DS] at hfo
+  obtain ⟨h0, b1⟩ := hfo
+  obtain ⟨b0, s0, g0, e0⟩ := codeOK_some h0
+  have x0 : extractBits (encWord d) 0 8 = d.src0 := by rw [hW]; unfold extractBits; omega
+  have x1 : extractBits (encWord d) 9 16 = d.vsrc1 := by rw [hW]; unfold extractBits; omega
+  refine ⟨by rw [hW]; omega, by rw [hW]; omega, by rw [hW]; unfold extractBits; omega, ?_⟩
+  clear hW
+  generalize encWord d = w at x0 x1 ⊢
+  intro w1? hw1
+  obtain ⟨_, hrf, hro⟩ := lookUp_some hrow
+  have l0 := getOperand_isLit (by omega) g0
+  have hsec : encSecond d = d.lit := by simp [encSecond, hft, FT_SOP2, FT_SOPK, FT_SOP1, FT_SOPC, FT_SOPP, FT_SMEM, FT_VOP2, FT_VOP1, FT_VOPC, FT_VOP3a, FT_VOP3b, FT_FLAT, FT_DS]
+  rw [hsec] at hw1
+  have hul : usesLit d = (d.src0 == 255) := by simp [usesLit, hft, FT_SOP2, FT_SOPK, FT_SOP1, FT_SOPC, FT_SOPP, FT_SMEM, FT_VOP2, FT_VOP1, FT_VOPC, FT_VOP3a, FT_VOP3b, FT_FLAT, FT_DS]
+  rw [hul] at hl
+  rw [hft] at hrow
+  simp only [FT_VOPC] at hrow
+  unfold decodeRow instOf
+  simp only [hsz, hrow, hsec, dec4, hf, hft, FT_SOP2, FT_SOPK, FT_SOP1, FT_SOPC, FT_SOPP, FT_SMEM, FT_VOP2, FT_VOP1, FT_VOPC, FT_VOP3a, FT_VOP3b, FT_FLAT, FT_DS, decodeVOPC, x0, x1, g0, l0, e0, hro]
+  cases hlit : d.lit with
+  | none =>
+    rw [hlit] at hl
+    simp [← hl, withLit]
+  | some l =>
+    rw [hlit] at hl
+    simp [← hl, withLit, hw1 l hlit, Outcome.setSize]
+
+theorem enc_vop1 (c : Bool) (d : Desc) (row : Row) (f : Format)
+    (hft : d.ft = FT_VOP1) (hf : f.ft = FT_VOP1) (hsz : f.size = 4)
+    (hrow : lookUp d.ft d.op = some row) (hop : d.op < 256)
+    (hfo : fieldsOK d = true) (hl : d.lit.isSome = usesLit d) :
+    encWord d < 2 ^ 32 ∧ encWord d / 2 ^ 25 = 63 ∧ extractBits (encWord d) 9 16 = d.op ∧
+    ∀ w1?, (∀ l, encSecond d = some l → w1? = some l) →
+      decodeRow c f row (encWord d) w1? = .ok (instOf d) := by
+  have hW : encWord d = 0x7E000000 + d.vdst * 2 ^ 17 + d.op * 2 ^ 9 + d.src0 := by
+    simp [encWord, hft, FT_SOP2, FT_SOPK, FT_SOP1, FT_SOPC, FT_SOPP, FT_SMEM, FT_VOP2, FT_VOP1, FT_VOPC, FT_VOP3a, FT_VOP3b, FT_FLAT, FT_DS]
+  simp [fieldsOK, hft, FT_SOP2, FT_SOPK, FT_SOP1, FT_SOPC, FT_SOPP, FT_SMEM, FT_VOP2, FT_VOP1, FT_VOPC, FT_VOP3a, FT_VOP3b, FT_FLAT, FT_DS] at hfo
+  obtain ⟨⟨h0, bd⟩, hd2⟩ := hfo
+  obtain ⟨b0, s0, g0, e0⟩ := codeOK_some h0
+  have x0 : extractBits (encWord d) 0 8 = d.src0 := by rw [hW]; unfold extractBits; omega
+  have xd : extractBits (encWord d) 17 24 = d.vdst := by rw [hW]; unfold extractBits; omega
+  refine ⟨by rw [hW]; omega, by rw [hW]; omega, by rw [hW]; unfold extractBits; omega, ?_⟩
+  clear hW
+  generalize encWord d = w at x0 xd ⊢
+  intro w1? hw1
+  obtain ⟨_, hrf, hro⟩ := lookUp_some hrow
+  have l0 := getOperand_isLit (by omega) g0
+  have hsec : encSecond d = d.lit := by simp [encSecond, hft, FT_SOP2, FT_SOPK, FT_SOP1, FT_SOPC, FT_SOPP, FT_SMEM, FT_VOP2, FT_VOP1, FT_VOPC, FT_VOP3a, FT_VOP3b, FT_FLAT, FT_DS]
+  rw [hsec] at hw1
+  have hul : usesLit d = (d.src0 == 255) := by simp [usesLit, hft, FT_SOP2, FT_SOPK, FT_SOP1, FT_SOPC, FT_SOPP, FT_SMEM, FT_VOP2, FT_VOP1, FT_VOPC, FT_VOP3a, FT_VOP3b, FT_FLAT, FT_DS]
+  rw [hul] at hl
+  rw [hft] at hrow
+  simp only [FT_VOP1] at hrow
+  -- the destination operand
+  have hdst : ∃ dd, (if d.op == 2 then getOperand d.vdst else getOperand (d.vdst + 256)) = some dd ∧
+      (if d.op == 2 then opndOf d.vdst else vreg (d.vdst + 256) d.vdst 0) = dd := by
+    by_cases h2 : d.op = 2
+    · have := hd2
+      simp only [h2] at this
+      cases hg : getOperand d.vdst with
+      | none => simp [hg] at this
+      | some dd => exact ⟨dd, by simp [h2], by simp [h2, opndOf, hg]⟩
+    · have hb : (d.op == 2) = false := by simpa using h2
+      exact ⟨vreg (d.vdst + 256) d.vdst 0, by rw [hb, if_neg (by simp)]; exact getOperand_vgpr bd, by rw [hb, if_neg (by simp)]⟩
+  obtain ⟨dd, gdd, edd⟩ := hdst
+  unfold decodeRow instOf
+  simp only [hsz, hrow, hsec, dec4, hf, hft, FT_SOP2, FT_SOPK, FT_SOP1, FT_SOPC, FT_SOPP, FT_SMEM, FT_VOP2, FT_VOP1, FT_VOPC, FT_VOP3a, FT_VOP3b, FT_FLAT, FT_DS, decodeVOP1, x0, xd, g0, gdd, edd, with64_isLit, l0, e0, hro]
+  cases hlit : d.lit with
+  | none =>
+    rw [hlit] at hl
+    simp [← hl, withLit]
+  | some l =>
+    rw [hlit] at hl
+    simp [← hl, withLit, hw1 l hlit, Outcome.setSize]
+
+theorem enc_vop2 (c : Bool) (d : Desc) (row : Row) (f : Format)
+    (hft : d.ft = FT_VOP2) (hf : f.ft = FT_VOP2) (hsz : f.size = 4)
+    (hrow : lookUp d.ft d.op = some row) (hop : d.op < 64)
+    (hfo : fieldsOK d = true) (hl : d.lit.isSome = usesLit d) :
+    encWord d < 2 ^ 32 ∧ encWord d / 2 ^ 31 = 0 ∧ extractBits (encWord d) 25 30 = d.op ∧
+    ∀ w1?, (∀ l, encSecond d = some l → w1? = some l) →
+      decodeRow c f row (encWord d) w1? = .ok (instOf d) := by
+  have hW : encWord d = d.op * 2 ^ 25 + d.vdst * 2 ^ 17 + d.vsrc1 * 2 ^ 9 + d.src0 := by
+    simp [encWord, hft, FT_SOP2, FT_SOPK, FT_SOP1, FT_SOPC, FT_SOPP, FT_SMEM, FT_VOP2, FT_VOP1, FT_VOPC, FT_VOP3a, FT_VOP3b, FT_FLAT, FT_DS]
+  simp [fieldsOK, hft, FT_SOP2, FT_SOPK, FT_SOP1, FT_SOPC, FT_SOPP, FT_SMEM, FT_VOP2, FT_VOP1, FT_VOPC, FT_VOP3a, FT_VOP3b, FT_FLAT, FT_DS] at hfo
+  obtain ⟨⟨h0, b1⟩, bd⟩ := hfo
+  obtain ⟨b0, s0, g0, e0⟩ := codeOK_some h0
+  have x0 : extractBits (encWord d) 0 8 = d.src0 := by rw [hW]; unfold extractBits; omega
+  have x1 : extractBits (encWord d) 9 16 = d.vsrc1 := by rw [hW]; unfold extractBits; omega
+  have xd : extractBits (encWord d) 17 24 = d.vdst := by rw [hW]; unfold extractBits; omega
+  refine ⟨by rw [hW]; omega, by rw [hW]; omega, by rw [hW]; unfold extractBits; omega, ?_⟩
+  clear hW
+  generalize encWord d = w at x0 x1 xd ⊢
+  intro w1? hw1
+  obtain ⟨_, hrf, hro⟩ := lookUp_some hrow
+  have l0 := getOperand_isLit (by omega) g0
+  have n249 : (d.src0 == 249) = false := by
+    cases h : d.src0 == 249 with
+    | false => rfl
+    | true => rw [beq_iff_eq.mp h, getOperand_249] at g0; simp at g0
+  have hsec : encSecond d = d.lit := by simp [encSecond, hft, FT_SOP2, FT_SOPK, FT_SOP1, FT_SOPC, FT_SOPP, FT_SMEM, FT_VOP2, FT_VOP1, FT_VOPC, FT_VOP3a, FT_VOP3b, FT_FLAT, FT_DS]
+  rw [hsec] at hw1
+  have hul : usesLit d = (d.src0 == 255 || isKOpcode d.op) := by simp [usesLit, hft, FT_SOP2, FT_SOPK, FT_SOP1, FT_SOPC, FT_SOPP, FT_SMEM, FT_VOP2, FT_VOP1, FT_VOPC, FT_VOP3a, FT_VOP3b, FT_FLAT, FT_DS]
+  rw [hul] at hl
+  rw [hft] at hrow
+  simp only [FT_VOP2] at hrow
+  unfold decodeRow instOf
+  simp only [hsz, hrow, hsec, dec4, hf, hft, FT_SOP2, FT_SOPK, FT_SOP1, FT_SOPC, FT_SOPP, FT_SMEM, FT_VOP2, FT_VOP1, FT_VOPC, FT_VOP3a, FT_VOP3b, FT_FLAT, FT_DS, decodeVOP2, x0, x1, xd, n249, g0, l0, e0, hro]
+  cases hlit : d.lit with
+  | none =>
+    rw [hlit] at hl
+    have hl' := hl.symm
+    simp only [Option.isSome_none, Bool.or_eq_false_iff] at hl'
+    simp [hl'.1, hl'.2, withLit]
+  | some l =>
+    rw [hlit] at hl
+    have hl' := hl.symm
+    simp only [Option.isSome_some, Bool.or_eq_true] at hl'
+    by_cases hk : isKOpcode d.op = true
+    · simp [hk, withLit, hw1 l hlit, Outcome.setSize]
+    · have hk' : isKOpcode d.op = false := by simpa using hk
+      have h255 : (d.src0 == 255) = true := by rcases hl' with h | h; exact h; exact absurd h hk
+      simp [hk', h255, withLit, hw1 l hlit, Outcome.setSize]
+
+theorem enc_smem (c : Bool) (d : Desc) (row : Row) (f : Format)
+    (hft : d.ft = FT_SMEM) (hf : f.ft = FT_SMEM) (hsz : f.size = 8)
+    (hrow : lookUp d.ft d.op = some row) (hop : d.op < 256)
+    (hfo : fieldsOK d = true) :
+    encWord d < 2 ^ 32 ∧ encWord d / 2 ^ 26 = 48 ∧ extractBits (encWord d) 18 25 = d.op ∧
+    ∀ w1?, (∀ l, encSecond d = some l → w1? = some l) →
+      decodeRow c f row (encWord d) w1? = .ok (instOf d) := by
+  have hW : encWord d = 0xC0000000 + d.op * 2 ^ 18 + d.imm * 2 ^ 17 + d.glc * 2 ^ 16 + d.sdata * 2 ^ 6 + d.sbase := by
+    simp [encWord, hft, FT_SOP2, FT_SOPK, FT_SOP1, FT_SOPC, FT_SOPP, FT_SMEM, FT_VOP2, FT_VOP1, FT_VOPC, FT_VOP3a, FT_VOP3b, FT_FLAT, FT_DS]
+  simp [fieldsOK, hft, FT_SOP2, FT_SOPK, FT_SOP1, FT_SOPC, FT_SOPP, FT_SMEM, FT_VOP2, FT_VOP1, FT_VOPC, FT_VOP3a, FT_VOP3b, FT_FLAT, FT_DS] at hfo
+  obtain ⟨⟨⟨⟨bb, hdt⟩, bi⟩, bg⟩, bo⟩ := hfo
+  obtain ⟨bdt, sdt, gdt, edt⟩ := codeOK_some hdt
+  have hoff : d.offset < 2 ^ 20 := by split at bo <;> omega
+  have xb : extractBits (encWord d) 0 5 = d.sbase := by rw [hW]; unfold extractBits; omega
+  have xdt : extractBits (encWord d) 6 12 = d.sdata := by rw [hW]; unfold extractBits; omega
+  have xg : extractBits (encWord d) 16 16 = d.glc := by rw [hW]; unfold extractBits; omega
+  have xi : extractBits (encWord d) 17 17 = d.imm := by rw [hW]; unfold extractBits; omega
+  have xo : extractBits d.offset 0 19 = d.offset := by unfold extractBits; omega
+  refine ⟨by rw [hW]; omega, by rw [hW]; omega, by rw [hW]; unfold extractBits; omega, ?_⟩
+  clear hW
+  generalize encWord d = w at xb xdt xg xi ⊢
+  intro w1? hw1
+  obtain ⟨_, hrf, hro⟩ := lookUp_some hrow
+  have hsec : encSecond d = some d.offset := by simp [encSecond, hft, FT_SOP2, FT_SOPK, FT_SOP1, FT_SOPC, FT_SOPP, FT_SMEM, FT_VOP2, FT_VOP1, FT_VOPC, FT_VOP3a, FT_VOP3b, FT_FLAT, FT_DS]
+  rw [hw1 _ hsec]
+  rw [hft] at hrow
+  simp only [FT_SMEM] at hrow
+  unfold decodeRow instOf
+  simp only [hsz, hrow, hsec, dec8, hf, hft, FT_SOP2, FT_SOPK, FT_SOP1, FT_SOPC, FT_SOPP, FT_SMEM, FT_VOP2, FT_VOP1, FT_VOPC, FT_VOP3a, FT_VOP3b, FT_FLAT, FT_DS, decodeSMEM, xb, xdt, xg, xi, xo, gdt, edt, hro]
+  simp [Outcome.setSize]
+
+
 /-! ## what the round trip needs to know about the (regenerated) format table -/
 
 def FmtIs (ft size lo hi k e : Nat) : Prop :=
@@ -285,6 +451,10 @@ theorem fmt_sopk : FmtIs FT_SOPK 4 23 27 28 11 := by unfold FmtIs; decide
 theorem fmt_sop1 : FmtIs FT_SOP1 4 8 15 23 381 := by unfold FmtIs; decide
 theorem fmt_sopc : FmtIs FT_SOPC 4 16 22 23 382 := by unfold FmtIs; decide
 theorem fmt_sopp : FmtIs FT_SOPP 4 16 22 23 383 := by unfold FmtIs; decide
+theorem fmt_vop2 : FmtIs FT_VOP2 4 25 30 31 0 := by unfold FmtIs; decide
+theorem fmt_vop1 : FmtIs FT_VOP1 4 9 16 25 63 := by unfold FmtIs; decide
+theorem fmt_vopc : FmtIs FT_VOPC 4 17 24 25 62 := by unfold FmtIs; decide
+theorem fmt_smem : FmtIs FT_SMEM 8 18 25 26 48 := by unfold FmtIs; decide
 
 theorem fieldsOK_ft {d : Desc} (h : fieldsOK d = true) :
     d.ft = FT_SOP2 ∨ d.ft = FT_SOPK ∨ d.ft = FT_SOP1 ∨ d.ft = FT_SOPC ∨ d.ft = FT_SOPP ∨
@@ -317,5 +487,31 @@ theorem encSecond_lt {d : Desc} (hfo : fieldsOK d = true)
     omega
   · rw [h] at hlb
     simpa using hlb
+
+/-- One table row, one format, one encoded first dword: if every word that carries the format's
+    encoding and the row's opcode is matched to (format, row), the encoded dword is such a word,
+    and `decodeRow` on it gives the expected instruction, then the whole byte string
+    `encode d ++ t` decodes to it. -/
+theorem roundtrip_of (c : Bool) (d : Desc) (row : Row) (f : Format) (hfm : f ∈ formats)
+    (hall : ∀ w, w < 2 ^ 32 → (w ^^^ f.encoding) &&& f.mask = 0 → extractBits w f.opLo f.opHi = row.opcode →
+        matchFormat w = some f ∧ lookUp f.ft (extractBits w f.opLo f.opHi) = some row)
+    (hsec : ∀ l, encSecond d = some l → l < 2 ^ 32)
+    (h : encWord d < 2 ^ 32 ∧ encWord d / 2 ^ shiftOf f = f.encoding / 2 ^ shiftOf f ∧
+      extractBits (encWord d) f.opLo f.opHi = row.opcode ∧
+      ∀ w1?, (∀ l, encSecond d = some l → w1? = some l) →
+        decodeRow c f row (encWord d) w1? = .ok (instOf d)) (t : List Nat) :
+    decode c (encode d ++ t) = .ok (instOf d) := by
+  obtain ⟨hlt, hdiv, hop, hdec⟩ := h
+  have hhit : (encWord d ^^^ f.encoding) &&& f.mask = 0 := by
+    have := hit_eq_div hfm hlt
+    rw [decide_eq_true hdiv] at this
+    simpa [hit] using this
+  obtain ⟨hm, hl⟩ := hall (encWord d) hlt hhit hop
+  unfold encode
+  rw [List.append_assoc, decode_bytes32 c _ hlt, decodeCore_of _ hm hl]
+  apply hdec
+  intro l hl
+  rw [hl]
+  exact second_bytes32 l (hsec l hl) t
 
 end C04
